@@ -27,27 +27,27 @@ var profileWeights = map[string]map[string]float64{
 	},
 	"relayer": {
 		"block": 10, "rel.hashes": 3, "rel.pubkey": 1, "rel.consolidation": 1, "rel.group": 4, "rel.forged": 6, "rel.replay": 4, "rel.deposit": 1, "rel.withdraw": 2, "el.bridge": 2,
-		"p.timejump": 0.10, "p.round": 0.03, "p.crash": 0.02,
+		"p.timejump": 0.10, "p.round": 0.03, "p.crash": 0.02, "p.shadowdiff": 0.25,
 	},
 	"deposits": {
 		"block": 10, "btc.mine": 4, "rel.hashes": 5, "rel.deposit": 8, "rel.baddeposit": 6, "el.params": 2, "rel.pubkey": 0.6,
-		"p.crash": 0.05, "p.engine": 0.03, "p.round": 0.03,
+		"p.crash": 0.05, "p.engine": 0.03, "p.round": 0.03, "p.shadowdiff": 0.15,
 	},
 	"withdrawals": {
 		"block": 10, "btc.mine": 3, "rel.hashes": 4, "el.bridge": 7, "rel.withdraw": 9, "rel.badwithdraw": 5, "rel.pubkey": 0.4, "rel.deposit": 1,
-		"p.crash": 0.04, "p.engine": 0.03, "p.round": 0.03,
+		"p.crash": 0.04, "p.engine": 0.03, "p.round": 0.03, "p.shadowdiff": 0.15,
 	},
 	"proposal": {
 		"block": 10, "el.locking": 3, "rel.hashes": 2, "rel.deposit": 2, "el.bridge": 2, "rel.withdraw": 2, "el.adversarial": 0.3,
-		"p.byz": 0.35, "p.junk": 0.30, "p.skew": 0.05, "p.round": 0.05, "p.engine": 0.05,
+		"p.byz": 0.35, "p.junk": 0.30, "p.skew": 0.05, "p.round": 0.05, "p.engine": 0.05, "p.multisched": 0.30,
 	},
 	"admission": {
 		"block": 10, "probe.admission": 12, "rel.hashes": 1, "rel.group": 2, "rel.deposit": 1,
-		"p.timejump": 0.10, "p.byz": 0.05,
+		"p.timejump": 0.10, "p.byz": 0.05, "p.shadowdiff": 0.25,
 	},
 	"fuzz": {
 		"block": 10, "probe.fuzztx": 10, "probe.fuzzproposal": 4, "el.adversarial": 6, "el.locking": 2, "rel.hashes": 1, "rel.deposit": 1, "el.bridge": 1, "rel.withdraw": 1,
-		"p.byz": 0.10, "p.junk": 0.10,
+		"p.byz": 0.10, "p.junk": 0.10, "p.shadowdiff": 0.30,
 	},
 	"enum": {
 		"block": 10, "el.locking": 3, "rel.hashes": 2, "rel.deposit": 3, "el.bridge": 2, "rel.withdraw": 3,
